@@ -318,6 +318,9 @@ def c10_programs(seed, tier):
     for bad in ("", "xmlns", "a b", "ä"):
         out.append(prog(f"regext_bad_{len(out)}", [new(), {"op": "ext", "ns": bad, "url": "http://x", "nameok": False}, FIN]))
     out.append(prog("regext_dup", [new(), {"op": "ext", "ns": "e", "url": "http://x"}, {"op": "ext", "ns": "e", "url": "http://y"}, FIN]))
+    # two prefixes bound to one URL name the same XML namespace: a record of the second prefix must not come back under the first
+    out.append(prog("regext_same_url", [new(), {"op": "ext", "ns": "e1", "url": "http://x"}, {"op": "ext", "ns": "e2", "url": "http://x"},
+                                        pc([X, Y, Z, rec("a", "int", 0, 9, ns="e2"), rec("b", "int", 0, 9, ns="e1")], pts=[default_point([X, Y, Z, inten, inten], k) for k in range(2)]), FIN]))
     # (6) value vectors: arity, type per position, integers around their range at every bit phase
     base = [X, Y, Z, inten]
     good = default_point(base)
